@@ -75,10 +75,15 @@ func (s *SoftCollection) Add(r Resource) {
 	for _, rel := range r.Rels() {
 		sr.AddRel(rel)
 
+		// Only well-typed values are stored. The value can be of
+		// another type when the resource's type has an attribute
+		// with the same name as the relationship.
 		if rel.ToOne {
-			sr.Set(rel.FromName, r.Get(rel.FromName).(string))
-		} else {
-			sr.Set(rel.FromName, r.Get(rel.FromName).([]string))
+			if v, ok := r.Get(rel.FromName).(string); ok {
+				sr.Set(rel.FromName, v)
+			}
+		} else if v, ok := r.Get(rel.FromName).([]string); ok {
+			sr.Set(rel.FromName, v)
 		}
 	}
 
